@@ -8,8 +8,8 @@ package sstls
 import (
 	"crypto/tls"
 	"crypto/x509"
-	"errors"
 	"encoding/base64"
+	"errors"
 	"net"
 	"time"
 )
@@ -21,14 +21,14 @@ import (
 //verif:stub crypto/tls.Listen stubTLSListen
 
 var (
-	getCertFails  bool
-	leafMissing   bool
-	keyID         byte
-	marshalFails  bool
-	listenFails   bool
-	listenConfig  *tls.Config
-	listenCalls   int
-	getCertCalls  int
+	getCertFails bool
+	leafMissing  bool
+	keyID        byte
+	marshalFails bool
+	listenFails  bool
+	listenConfig *tls.Config
+	listenCalls  int
+	getCertCalls int
 )
 
 var errC05 = errors.New("stub failure")
